@@ -32,6 +32,7 @@ Theorem C05_draw_gate :
     get_cp e t = Some cp /\ find_cdp e s o t = Some c0 /\
     c_id c' = c_id c0 /\ c_type c' = c_type c0 /\ c_owner c' = c_owner c0 /\ c_coll c' = c_coll c0 /\
     c_prin c' = c_prin c0 + x /\ 0 < x /\
+    mstat s (cp_spot cp) = true /\ mstat s (cp_liqm cp) = true /\
     cdps s' (c_type c') (c_id c') = Some c' /\ price s' = price s /\
     ratio_at e cp (price s' (cp_spot cp)) (c_coll c') (c_prin c') (c_fees c') = Ok tt r /\ cp_liq cp <= r.
 Proof. exact draw_gate. Qed.
@@ -65,21 +66,27 @@ Print Assumptions C05_create_gate.
 
 (** ** Price-feed gate *)
 
-(* Creation, deposit and withdrawal are refused unless both market-status flags of the collateral are up. *)
+(* Creation, draw, deposit and withdrawal are refused unless both market-status flags of the collateral are up
+   (draw since fix 8fb7c1495, which the model follows). *)
 Theorem C05_pricefeed_gate :
   forall e s t cp, get_cp e t = Some cp -> mstat s (cp_spot cp) = false \/ mstat s (cp_liqm cp) = false ->
   (forall o cd coll pd prin, create e s o t cd coll pd prin = Err) /\
   (forall o u cd x, deposit e s o u t cd x = Err) /\
-  (forall o u cd x, withdraw e s o u t cd x = Err).
+  (forall o u cd x, withdraw e s o u t cd x = Err) /\
+  (forall o pd x, draw e s o t pd x = Err).
 Proof.
   intros e s t cp Hcp Hdown.
   assert (Hv : forall cd, validate_collateral e s t cd = None).
   { intros cd. unfold validate_collateral. rewrite Hcp. destruct (Nat.eqb _ _); [|reflexivity].
     destruct Hdown as [->| ->]; [reflexivity|]. destruct (mstat s (cp_spot cp)); reflexivity. }
+  assert (Hm : mstat s (cp_spot cp) && mstat s (cp_liqm cp) = false).
+  { destruct Hdown as [->| ->]; [reflexivity|apply andb_false_r]. }
   repeat split; intros.
-  - unfold create. destruct (_ && _); [|reflexivity]. cbn [negb]. rewrite Hv. reflexivity.
+  - unfold create. destruct ((0 <? coll) && (0 <? prin)); [|reflexivity]. cbn [negb]. rewrite Hv. reflexivity.
   - unfold deposit. destruct (0 <? x); [|reflexivity]. cbn [negb]. rewrite Hv. reflexivity.
   - unfold withdraw. destruct (0 <? x); [|reflexivity]. cbn [negb]. rewrite Hv. reflexivity.
+  - unfold draw. destruct (0 <? x); [|reflexivity]. cbn [negb]. rewrite Hcp.
+    destruct (find_cdp e s o t); [|reflexivity]. rewrite Hm. reflexivity.
 Qed.
 Print Assumptions C05_pricefeed_gate.
 
@@ -88,29 +95,6 @@ Theorem C05_status_follows_price :
   forall s m, mstat (fst (update_status s m)) m = negb (price s m =? 0) /\ snd (update_status s m) = negb (price s m =? 0).
 Proof. intros s m. unfold update_status. cbn. unfold upd. rewrite Nat.eqb_refl. split; reflexivity. Qed.
 Print Assumptions C05_status_follows_price.
-
-(* Draw is refused while the spot price is unavailable (it consults the price, not the status flags) ... *)
-Theorem C05_pricefeed_gate_draw_partial :
-  forall e s o t pd x s' u cp, get_cp e t = Some cp -> 0 < cp_liq cp ->
-  draw e s o t pd x = Ok s' u -> price s (cp_spot cp) <> 0.
-Proof.
-  intros e s o t pd x s' u cp Hcp Hl H Hp.
-  apply draw_gate in H. destruct H as (cp' & c0 & c' & r & Hcp' & _ & _ & _ & _ & _ & _ & _ & _ & Hpr & Hr & Hle).
-  assert (cp' = cp) by congruence. subst cp'. rewrite Hpr, Hp in Hr.
-  apply ratio_at_price_zero in Hr. lia.
-Qed.
-Print Assumptions C05_pricefeed_gate_draw_partial.
-
-(* ... but it is NOT refused while the liquidation-market feed of the collateral is down, although
-   create, deposit and withdraw are: after a block in which the liquidation market lost its price the
-   status flag of that market is down, a deposit is refused and a draw succeeds. *)
-Theorem C05_pricefeed_gate_draw_refuted :
-  let s1 := run w_env w_s0 [Create 0 2 4 40000000 3 10000003; Block 1000000000 [(3%nat, 0)]] in
-  mstat s1 2 = true /\ mstat s1 3 = false /\
-  step w_env s1 (Deposit 0 0 2 4 5) = Err /\
-  (match step w_env s1 (Draw 0 2 3 5) with Ok _ _ => True | _ => False end).
-Proof. vm_compute. repeat split; reflexivity. Qed.
-Print Assumptions C05_pricefeed_gate_draw_refuted.
 
 (** ** Keeper liquidation only below the ratio *)
 Theorem C05_keeper_liq_only_below :
@@ -122,56 +106,67 @@ Theorem C05_keeper_liq_only_below :
 Proof. exact keeper_gate. Qed.
 Print Assumptions C05_keeper_liq_only_below.
 
-(** ** Block-level liquidation *)
+(** ** Block-level liquidation (after fix 2e356dd20, which the model follows) *)
 
-(* Which cdps LiquidateCdps touches: exactly those read from the scan of the ratio index below the cut... *)
-Theorem C05_block_liq_only_scanned :
+(* A cdp changed (seized) by LiquidateCdps was read from the scan of the ratio index below the cut AND
+   confirmed: its value ratio at the liquidation price is below the liquidation ratio. *)
+Theorem C05_block_liq_only_below :
   forall e s t cp s' u, liquidate_cdps e s t cp = Ok s' u ->
   forall t' id, cdps s' t' id <> cdps s t' id ->
   exists x c, In x (idx_below (rkey (liq_cut (price s (cp_liqm cp)) (cp_liq cp))) (scan_count cp) (ridx s t)) /\
     fst x < rkey (liq_cut (price s (cp_liqm cp)) (cp_liq cp)) /\
-    get_cdp e s t (snd x) = Some c /\ t' = c_type c /\ id = c_id c.
+    get_cdp e s t (snd x) = Some c /\ t' = c_type c /\ id = c_id c /\
+    price s (cp_liqm cp) <> 0 /\ confirm_below e cp (price s (cp_liqm cp)) c = true.
 Proof. exact liquidate_cdps_only_scanned. Qed.
-Print Assumptions C05_block_liq_only_scanned.
+Print Assumptions C05_block_liq_only_below.
 
-(* ... and an index ratio below the cut means: collateral C and debt D in base units satisfy
-   C*q < D*(1 + q*10^-36) where q = price/liqRatio as rounded by the code, and
-   q*liqRatio > price - liqRatio*(1/2*10^-18 + 10^-36).  Hence the exact value ratio
-   C*price/D is below liqRatio*(1 + eps), eps ~ 10^-18 * liqRatio / (2*price). *)
-Theorem C05_block_liq_only_below_partial :
+(* [confirm_below] is CalculateCollateralizationRatio < liquidation ratio: for a cdp with positive debt the
+   ratio computed for user actions and keeper liquidation at the same price is below the liquidation ratio
+   (so the block liquidator seizes only what a keeper message could seize). *)
+Theorem C05_confirm_is_value_ratio :
+  forall e cp p c r, confirm_below e cp p c = true ->
+  0 < to_base (c_prin c) (dp_cf e) + to_base (c_fees c) (dp_cf e) ->
+  ratio_at e cp p (c_coll c) (c_prin c) (c_fees c) = Ok tt r -> r < cp_liq cp.
+Proof. exact confirm_below_ratio. Qed.
+Print Assumptions C05_confirm_is_value_ratio.
+
+(* How far the index scan reaches: an index ratio below the cut 1/(price/liqRatio) means
+   C*q < D*(1 + q*10^-36), q = price/liqRatio as rounded by the code, q*liqRatio > price - liqRatio*(1/2*10^-18 + 10^-36);
+   the cut can therefore lie above the true boundary by a relative 10^-18*liqRatio/(2*price) — the candidates in
+   that sliver are the ones the confirmation step filters out. *)
+Theorem C05_index_cut_slack :
   forall coll cfc debt cfd p liq,
   rkey (c2d_ratio coll cfc debt cfd) < rkey (liq_cut p liq) ->
   0 <= to_base coll cfc -> 0 < to_base debt cfd < MAXS -> 0 <= p -> 0 < liq ->
   to_base coll cfc * cut_div p liq * PREC * PREC < to_base debt cfd * (PREC * PREC * PREC + cut_div p liq) /\
   2 * p * PREC * PREC < 2 * cut_div p liq * liq * PREC + liq * PREC + 2 * liq.
 Proof. exact below_cut_partial. Qed.
-Print Assumptions C05_block_liq_only_below_partial.
+Print Assumptions C05_index_cut_slack.
 
-(* The statement without slack is false: price 0.5, liquidation ratio 1.5, collateral 30 000 000,
-   debt 10 000 000 (conversion factors 6/6): the cdp is created at exactly 150 %, keeper
-   liquidation is refused (ratio not below), and the next begin blocker seizes it. *)
-
-Theorem C05_block_liq_only_below_refuted :
+(* Regression of the former finding: price 0.5, liquidation ratio 1.5, collateral 30 000 000, debt 10 000 000:
+   the cdp sits exactly at 150 %, its index entry is below the cut, a keeper liquidation is refused and the next
+   begin blocker does NOT seize it. *)
+Theorem C05_at_ratio_not_seized :
   inv_b w_env 8000000000000 w_s1 = true /\
-  (* the cdp exists and sits exactly at the liquidation ratio at the liquidation price *)
   (match cdps w_s1 2 1, get_cp w_env 2 with
    | Some c, Some cp =>
-       ratio_at w_env cp (price w_s1 (cp_liqm cp)) (c_coll c) (c_prin c) (c_fees c) = Ok tt (cp_liq cp)
+       ratio_at w_env cp (price w_s1 (cp_liqm cp)) (c_coll c) (c_prin c) (c_fees c) = Ok tt (cp_liq cp) /\
+       rkey (cdp_ratio w_env cp c) < rkey (liq_cut (price w_s1 (cp_liqm cp)) (cp_liq cp))
    | _, _ => False end) /\
-  (* a keeper liquidation is refused *)
   step w_env w_s1 (Liquidate 1 0 2) = Err /\
-  (* the next begin blocker (one second later, no price change) seizes it *)
   (match step w_env w_s1 (Block 1000000000 []) with
-   | Ok s2 _ => cdps s2 2 1 = None /\ inv_b w_env 8000000000000 s2 = true
+   | Ok s2 _ => cdps s2 2 1 = cdps w_s1 2 1 /\ inv_b w_env 8000000000000 s2 = true
    | _ => False end).
 Proof. vm_compute. repeat split; reflexivity. Qed.
-Print Assumptions C05_block_liq_only_below_refuted.
+Print Assumptions C05_at_ratio_not_seized.
 
-(* Completeness: every cdp read from the scan (the lowest index ratios below the cut, up to the count) is seized. *)
+(* Completeness: every cdp read from the scan (the lowest index ratios below the cut, up to the count) whose
+   value ratio is confirmed below the liquidation ratio is seized. *)
 Theorem C05_block_liq_complete :
   forall e s t cp s' u, liquidate_cdps e s t cp = Ok s' u -> price s (cp_liqm cp) <> 0 ->
   forall x, In x (idx_below (rkey (liq_cut (price s (cp_liqm cp)) (cp_liq cp))) (scan_count cp) (ridx s t)) ->
-  exists c, get_cdp e s t (snd x) = Some c /\ cdps s' (c_type c) (c_id c) = None.
+  exists c, get_cdp e s t (snd x) = Some c /\
+    (confirm_below e cp (price s (cp_liqm cp)) c = true -> cdps s' (c_type c) (c_id c) = None).
 Proof. exact liquidate_cdps_complete. Qed.
 Print Assumptions C05_block_liq_complete.
 
@@ -218,5 +213,8 @@ Example C05_nonvacuous :
    | Ok s3 _ => cdps s3 2 1 = None /\ adebts (aucs s3) = 10000003 /\ lots (aucs s3) = 80000000 /\ inv_b w_env 8000000000000 s3 = true
    | _ => False end) /\
   (match step w_env (step' w_env s2 (Block 1000000000 [(2%nat, 300000000000000000); (3%nat, 1000000000000000000)])) (Draw 0 2 3 5) with
-   | Ok _ _ => True | _ => False end).
+   | Ok _ _ => True | _ => False end) /\
+  (* liquidation-market feed down: draw is refused like deposit *)
+  (let s4 := step' w_env s2 (Block 1000000000 [(3%nat, 0)]) in
+   mstat s4 2 = true /\ mstat s4 3 = false /\ step w_env s4 (Draw 0 2 3 5) = Err /\ step w_env s4 (Deposit 0 0 2 4 5) = Err).
 Proof. vm_compute. repeat split; reflexivity. Qed.
